@@ -408,6 +408,8 @@ def _registry(run: Run, res: Resolver, cm) -> None:
                     constructed |= {ast.unparse(x.func) for x in walk_no_nested(c.func.node) if isinstance(x, ast.Call) and isinstance(x.func, ast.Name)}
     # ... and through a keyword -> class table: `cls = TABLE.get(part)` / `TABLE[part]` followed by `cls()`
     for n in walk_no_nested(parse.node):
+        if isinstance(n, ast.NamedExpr) and isinstance(n.target, ast.Name):
+            n = ast.Assign(targets=[n.target], value=n.value)  # `(f := TABLE.get(part)) is not None` binds like an assignment
         if isinstance(n, ast.Assign) and len(n.targets) == 1 and isinstance(n.targets[0], ast.Name):
             v = n.value
             tname = None
